@@ -1,0 +1,31 @@
+//go:build verif
+
+package inmemory
+
+// Verification harness (build tag verif only; see /verif/DESIGN.md, C05).
+
+// verifInterfere stands for "other goroutines run here". It does nothing when executed; its
+// contract (in zz_contracts_verif.go) lets the content of the checkpoints map change arbitrarily.
+func verifInterfere(p *inMemoryPersistence) {}
+
+// verifScenarioWrite is the storage-level shape of one Witness.Update against this store, with
+// other goroutines running between any two storage operations: open a write handle, read the
+// latest checkpoint, set a new one, close.
+func verifScenarioWrite(p *inMemoryPersistence, id string, c []byte) (seen []byte, gerr error, serr error) {
+	verifInterfere(p)
+	w, _ := p.WriteOps(id)
+	defer w.Close()
+	verifInterfere(p)
+	seen, gerr = w.GetLatest()
+	verifInterfere(p)
+	serr = w.Set(c)
+	return seen, gerr, serr
+}
+
+// verifScenarioRead is the storage-level shape of Witness.GetCheckpoint.
+func verifScenarioRead(p *inMemoryPersistence, id string) (seen []byte, gerr error) {
+	verifInterfere(p)
+	r, _ := p.ReadOps(id)
+	seen, gerr = r.GetLatest()
+	return seen, gerr
+}
